@@ -6,7 +6,7 @@
     byte strings of any length and all trees of any depth and width. *)
 From Coq Require Import List NArith Bool.
 From TwLib Require Import PyStr.
-From C28 Require Import Gen Model Proofs Html5.
+From C28 Require Import Gen Model Proofs Html5 Source.
 Import ListNotations.
 Local Open Scope N_scope.
 
@@ -91,3 +91,18 @@ Theorem html5_comment_outside_guard_refuted : forall s rest : list N,
   snd (html_comment CStart [] (escapedComment s ++ b_comment_close ++ rest)) <> rest.
 Proof. exact html5_guard_exact. Qed.
 Print Assumptions html5_comment_outside_guard_refuted.
+
+(** str input: every escaper first encodes a str with the strict UTF-8 codec.  A source tree in which
+    ANY str (element content, CDATA, comment, attribute value, at any depth) holds a lone surrogate
+    yields no document at all (UnicodeEncodeError / FlattenerError) ... *)
+Theorem unencodable_text_gives_no_document : forall t : snode,
+  has_unencodable t = true -> flatten_source t = None.
+Proof. exact unencodable_no_document. Qed.
+Print Assumptions unencodable_text_gives_no_document.
+
+(** ... and whenever a source tree does yield a document, it is the flattening of the encoded tree
+    and tokenizes to exactly that tree's token sequence. *)
+Theorem source_document_parses_back : forall (t : snode) (doc : list N), flatten_source t = Some doc ->
+  exists t' : node, encode_tree t = Some t' /\ doc = flatten false t' /\ (wf t' = true -> tokenize doc = toks t').
+Proof. exact source_document_tokens. Qed.
+Print Assumptions source_document_parses_back.
